@@ -698,16 +698,18 @@ def transform_journal(journal):
            account,
            {summary_func}(position),
            {summary_func}(balance)
-        {where}
 
-    """.format(where=('WHERE account ~ "{}"'.format(journal.account)
-                      if journal.account
-                      else ''),
-               summary_func=journal.summary_func or ''))
+    """.format(summary_func=journal.summary_func or ''))
+
+    # The account pattern can contain any character, quotes included:
+    # build the condition rather than formatting it into the query text.
+    where_clause = None
+    if journal.account:
+        where_clause = ast.Match(ast.Column('account'), ast.Constant(journal.account))
 
     return ast.Select(cooked_select.targets,
                       journal.from_clause,
-                      cooked_select.where_clause,
+                      where_clause,
                       None, None, None, None, None)
 
 
